@@ -480,7 +480,7 @@ def gen_hostile(r):
     cn = r.choice(HOSTILE_CLS) if "cls" in twists else r.choice(["ValueError", "OSError", "KeyError", "Foo", "Sub", "error", "IOError", "UnicodeDecodeError", "StopIteration"])
     key = (mod, cn)
     if "key" in twists:
-        key = r.choice([(mod, cn, 1), (mod,), "ab", b"ab", "a", 5, None, frozenset(["a", "b"]), slice("m", "c"), (), [mod, cn] and (cn, mod)])
+        key = r.choice([(mod, cn, 1), (mod,), "ab", b"ab", "a", 5, None, frozenset(["a", "b"]), slice("m", "c"), (), (cn, mod)])
     args = tuple(r.choice(IMM) for _ in range(r.choice([0, 1, 2, 3])))
     if "args" in twists:
         args = r.choice(["xyz", b"xy", "", b"", frozenset([1]), frozenset([1, 2]), 5, None, 1.5, True, slice(1, 2), Ellipsis, NotImplemented])
@@ -1033,8 +1033,9 @@ def generate(ctx):
             cases.append({"kind": "builtin", "cls": name, "variant": variant, "seed": r.getrandbits(48), "sf": list(sf), "rf": [0, 0, 0]})
     n_custom = 6 if ctx.quick else 60
     for mod in (LOADED, LAZY, LAZY2, NOSUCH, "harness.C09", "builtins"):
-        for cn in (["Foo", "NeedsArgs", "Sub", "Base", "NotExc", "Plain", "helper", "VE", "Missing"] if mod != "builtins" else ["ValueError", "int", "Nope"]):
-            if mod == "harness.C09" and cn not in ("Foo", "Missing", "MyInt"):
+        # "ValueError"/"OSError" outside builtins: a custom class that merely shares its name with a built-in one
+        for cn in (["Foo", "NeedsArgs", "Sub", "Base", "NotExc", "Plain", "helper", "VE", "Missing", "ValueError", "OSError"] if mod != "builtins" else ["ValueError", "int", "Nope"]):
+            if mod == "harness.C09" and cn not in ("Foo", "Missing", "MyInt", "ValueError"):
                 continue
             for j in range(n_custom):
                 rf = RF_ALL[(j * 3 + len(cn)) % len(RF_ALL)] if j < 8 else r.choice(RF_ALL)
